@@ -257,7 +257,7 @@ class _Mismatch(Exception):
         self.msg = msg
 
 
-def _execute(case: dict, eager: bool = False, info: T.Optional[dict] = None) -> None:
+def _execute(case: dict, eager: bool = False, info: T.Optional[dict] = None, read_after: int = -1) -> None:
     """Run a normalised case on the real objects and the reference in lock-step; raise _Mismatch."""
     cls = case['cls']
     kind = R.kind_clike if cls == 'clike' else R.kind_base
@@ -307,7 +307,7 @@ def _execute(case: dict, eager: bool = False, info: T.Optional[dict] = None) -> 
         except (IndexError, ValueError) as e:
             got = ('exc', type(e).__name__)
         if got != want:
-            raise _Mismatch(f'read/{where.split()[0]}', f'{where}: got {got}, list semantics give {want}')
+            raise _Mismatch('read/' + json.loads(where.split(' ', 2)[2])[0], f'{where}: got {got}, list semantics give {want}')
         return got, want
 
     for n, op in enumerate(case['ops']):
@@ -489,10 +489,10 @@ def _execute(case: dict, eager: bool = False, info: T.Optional[dict] = None) -> 
             s.unread = False
         elif name in ('add', 'radd', 'add_ca'):
             slots[-1].unread = True
-        if eager and not s.dead:
+        if eager or n == read_after:
             for x in slots:
                 if not x.dead:
-                    compare(x, where + ' (eager re-run)')
+                    compare(x, where + ' (then an extra read of every object)')
     for i, s in enumerate(slots):
         if not s.dead:
             compare(s, f'final read of object {i}')
@@ -503,17 +503,26 @@ def _execute(case: dict, eager: bool = False, info: T.Optional[dict] = None) -> 
 
 
 def run_case(case: dict, info: T.Optional[dict] = None) -> T.Optional[Failure]:
-    """case must be normalised."""
+    """case must be normalised.  The signature is taken at the earliest point where the divergence can be observed:
+    with a read after every step if that also fails, otherwise (lazy-only defect) with one extra read placed after the
+    earliest step that makes it visible."""
     try:
         _execute(case, info=info)
     except _Mismatch as m:
         sig, msg = m.sig, m.msg
+        mode = ''
         try:
             _execute(case, eager=True)
             mode = '@lazy-only'
             msg += '\n (the same operations with a read after every step give the expected lists: lazy-queue defect)'
-        except _Mismatch:
-            mode = ''
+            for k in range(len(case['ops'])):
+                try:
+                    _execute(case, read_after=k)
+                except _Mismatch as m3:
+                    sig, msg = m3.sig, m3.msg + '\n (with a read after every step the lists are as expected: lazy-queue defect)'
+                    break
+        except _Mismatch as m2:
+            sig, msg = m2.sig, m2.msg
         if case['cls'] != 'clike':
             sig = 'base-' + sig
         return Failure(sig + mode, case, f"{case['cls']} init={case['init']} ops={json.dumps(case['ops'])}\n {msg}")
